@@ -24,6 +24,8 @@ def sh(cmd, cwd=None, timeout=1800):
 def main():
     wt, patch, demo = sys.argv[1:4]
     res = {'patch': patch}
+    if '--repo-only' in sys.argv:
+        return repo_part(res, patch)
     rc, out = sh('git status --porcelain --untracked-files=no', wt)
     if out.strip():
         sh('git checkout -- .', wt)
@@ -45,6 +47,13 @@ def main():
     sh('git checkout -- .', wt)
     rc, out = sh('/venv/bin/python %s' % demo, wt, 600)
     res['demo_without_change'] = rc
+    if '--no-repo' in sys.argv:
+        print(json.dumps(res, indent=1))
+        return 0
+    return repo_part(res, patch)
+
+
+def repo_part(res, patch):
     # checks against /repo
     rc, out = sh('git -C /repo status --porcelain --untracked-files=no')
     if out.strip():
